@@ -51,7 +51,11 @@ BOUNDS = (
     "2- and 3-thread programs (quick 80 programs, thorough 800, 17 of them curated; <= 400 schedules each) plus "
     "seeded random schedules of 4-thread programs (quick 2000, thorough 25000); every history "
     "plus a sequential audit (counters, recency order, get of every key) is checked for a "
-    "sequential witness by exhaustive search.  Not covered: pre-emption inside a bytecode "
+    "sequential witness by exhaustive search.  Whether set_max_size() evicts at once is probed "
+    "first and the model follows the code in that one respect; the entry-count clause is judged "
+    "independently.  Measured: quick ~130000 exhaustive sequences + 3000 histories + ~17000 "
+    "schedules in ~24 s; thorough ~1.89 million sequences + 40000 histories + ~174000 schedules in "
+    "~330 s.  Not covered: pre-emption inside a bytecode "
     "(A-gil), mutation of an Answer after put, more than 4 threads / 6 keys."
 )
 
